@@ -420,11 +420,11 @@ func (c *SpecCtx) evalBinary(x *ast.BinaryExpr) *SV {
 	case token.SUB:
 		return &SV{V: scalar(Sub(ta, tb)), T: rt}
 	case token.MUL:
-		return &SV{V: scalar(Mul(ta, tb)), T: rt}
+		return &SV{V: scalar(c.ex.nlMul(ta, tb)), T: rt}
 	case token.QUO:
-		return &SV{V: scalar(goDivInt(ta, tb)), T: rt}
+		return &SV{V: scalar(c.ex.nlDiv(ta, tb)), T: rt}
 	case token.REM:
-		return &SV{V: scalar(goRemInt(ta, tb)), T: rt}
+		return &SV{V: scalar(c.ex.nlMod(ta, tb)), T: rt}
 	case token.LSS:
 		return boolSV(Lt(ta, tb))
 	case token.LEQ:
